@@ -1077,3 +1077,19 @@ V("C13", "memo_cleared_in_place", "fire", "R13.f", (Z, "                private.
 V("C17", "parameter_getstate_drops_watchers", "fire", "R17.c", (Z, "        return {slot: getattr(self, slot) for slot in self.__class__._all_slots_}", "        state = {slot: getattr(self, slot) for slot in self.__class__._all_slots_}\n        state['watchers'] = {}\n        return state"))
 V("C17", "get_all_slots_skips_own_class", "fire", "R17.g", (Z, "    parent_param_classes = [c for c in classlist(class_)[1::]]", "    parent_param_classes = [c for c in classlist(class_)[1:-1]]"))
 V("C17", "benign_get_all_slots_mro_form", "benign", None, (Z, "    parent_param_classes = [c for c in classlist(class_)[1::]]", "    parent_param_classes = [c for c in inspect.getmro(class_)[-2::-1]]"))
+
+# setter model
+V("C01", "constant_params_skip_validation", "fire", "R01.m", (Z, "        self._validate(val)\n\n        _old = NotImplemented", "        if obj is None or not self.constant:\n            self._validate(val)\n\n        _old = NotImplemented"))
+V("C02", "relink_between_validate_and_guard", "fire", "R02.m", (Z, "        self._validate(val)\n\n        _old = NotImplemented", "        self._validate(val)\n        if relink:\n            self._relink(obj, name, ref)\n            relink = False\n\n        _old = NotImplemented"))
+V("C08", "relink_skipped_for_same_reference", "fire", "R08.m", (Z, "            relink = ref is not None or (name in obj._param__private.refs and not syncing)", "            relink = (ref is not None and ref is not obj._param__private.refs.get(name)) or (ref is None and name in obj._param__private.refs and not syncing)"))
+V("C12", "class_route_also_writes_instance_like_store", "fire", "R12.m", (Z, """            if obj is None:
+                _old = self.default
+                self.default = val
+            else:
+                # When setting a Parameter before calling super.""", """            if obj is None or not obj._param__private.initialized:
+                _old = self.default
+                self.default = val
+            else:
+                # When setting a Parameter before calling super."""))
+V("C14", "constant_identity_replaced_by_equality_in_model", "fire", "R14.*", (Z, "                if val is not _old:\n                    raise TypeError(\"Constant parameter", "                if val is not _old and not obj._param__private.initialized:\n                    raise TypeError(\"Constant parameter"))
+V("C03", "no_dispatch_for_class_level_set", "fire", "R03.m", (Z, "        if obj is None:\n            watchers = self.watchers.get(\"value\")\n        elif name in", "        if obj is None:\n            watchers = None\n        elif name in"))
